@@ -148,6 +148,7 @@ func cmdVerify(args []string) {
 		}
 	}
 	scratch := *keep
+	KeepFiles = *keep != ""
 	if scratch == "" {
 		scratch, _ = os.MkdirTemp("/var/tmp", "govc.")
 		defer os.RemoveAll(scratch)
@@ -176,6 +177,29 @@ func cmdVerify(args []string) {
 		os.MkdirAll(d, 0o755)
 		DischargeAll(items, d, *sec, 16, false)
 		fmt.Printf("== %s: %d obligations, %d paths\n", fn, len(r.Obls), r.Paths)
+		if os.Getenv("GOVC_TRACES") != "" {
+			hist := map[string]int{}
+			for _, o := range r.Obls {
+				if o.Kind == "frame" {
+					parts := strings.Fields(o.Trace)
+					k := ""
+					for _, p := range parts {
+						if strings.HasPrefix(p, fn.Name()+":") {
+							k = p
+						}
+					}
+					hist[k]++
+				}
+			}
+			var ks []string
+			for k := range hist {
+				ks = append(ks, k)
+			}
+			sort.Strings(ks)
+			for _, k := range ks {
+				fmt.Printf("   returns at %s: %d\n", k, hist[k])
+			}
+		}
 		if r.Subset != "" {
 			fmt.Printf("   LEFT-SUBSET: %s\n", r.Subset)
 			bad++
@@ -244,7 +268,3 @@ func sanitize(s string) string {
 	return s
 }
 
-func cmdCheck(args []string) {
-	fmt.Fprintln(os.Stderr, "check: not implemented yet")
-	os.Exit(2)
-}
